@@ -85,6 +85,22 @@ def specTri (inp : Tri Rat) (inpWords : List String) (outs : List (Tri Rat)) (ou
     let scale := ps.foldl (fun m v => ratMax m (posScale v.pos)) 0
     let aScale := ps.foldl (fun m v => v.attr.foldl (fun m x => ratMax m (ratAbs x)) m) 1
     let tol : Rat := 1/500
+    -- "beyond rounding": f32 lerp between vertices of very different magnitude loses absolute
+    -- precision of the order of an ulp of the LARGEST coordinate (v0 + (v1-v0)·t cancels); in
+    -- barycentric units that is epsAbs / |edge|
+    let epsAbs : Rat := scale / 1000000
+    let e1 := Spec.ClipArea.P4.sub p1 p0
+    let e2 := Spec.ClipArea.P4.sub p2 p0
+    let l1sq := Spec.ClipArea.P4.dot e1 e1
+    let l2sq := Spec.ClipArea.P4.dot e2 e2
+    -- tolB ≥ epsAbs/|e1| without square roots: tolB² ≥ epsAbs²/|e1|²
+    let up (lsq : Rat) : Rat :=
+      if lsq == 0 then 1 else
+        let r := epsAbs * epsAbs / lsq
+        -- smallest power-of-two bound t with t² ≥ r, capped at 1/4
+        (List.range 10).foldl (fun t _ => if t * t ≥ 4 * r && t > tol then t / 2 else t) (1/4)
+    let tolB := ratMax tol (up l1sq)
+    let tolC := ratMax tol (up l2sq)
     -- (a) inside the frustum, for every output vertex, regardless of conditioning
     let outVerts := outs.flatMap triVerts
     let outside := outVerts.findSome? fun v =>
@@ -99,11 +115,11 @@ def specTri (inp : Tri Rat) (inpWords : List String) (outs : List (Tri Rat)) (ou
         | none => some ("vertex-off-plane", "degenerate solve")
         | some (b, c, res) =>
           if res > 1/100000000 then some ("vertex-off-plane", s!"output vertex not in the plane of the input triangle (residual² {fmtQ res})")
-          else if b < -tol || c < -tol || b + c > 1 + tol then some ("vertex-outside-triangle", s!"barycentric ({fmtQ (1-b-c)}, {fmtQ b}, {fmtQ c})")
+          else if b < -tolB || c < -tolC || b + c > 1 + tolB + tolC then some ("vertex-outside-triangle", s!"barycentric ({fmtQ (1-b-c)}, {fmtQ b}, {fmtQ c})")
           else
             let want := (inp.a.attr.zip (inp.b.attr.zip inp.c.attr)).map fun (x0, (x1, x2)) => (1 - b - c) * x0 + b * x1 + c * x2
             let err := (want.zip v.attr).foldl (fun m (x, y) => ratMax m (ratAbs (x - y))) 0
-            if err > aScale * tol || want.length != v.attr.length then some ("attribute-not-linear", s!"attribute off by {fmtQ err} from the input's linear field at the vertex position")
+            if err > aScale * (tolB + tolC) || want.length != v.attr.length then some ("attribute-not-linear", s!"attribute off by {fmtQ err} from the input's linear field at the vertex position")
             else none
       if vertBad.isSome then vertBad
       else
@@ -113,9 +129,10 @@ def specTri (inp : Tri Rat) (inpWords : List String) (outs : List (Tri Rat)) (ou
           | _ => 0
         let want := Spec.ClipArea.insideArea p0 p1 p2
         let total := areas.foldl (· + ·) 0
-        if areas.any (· < -(1/2000)) then some ("winding-flipped", "an output triangle has the opposite orientation of its input")
-        else if total < want - 1/1000 then some ("inside-part-lost", s!"outputs cover {fmtQ total} of the inside area {fmtQ want} (barycentric units)")
-        else if total > want + 1/1000 then some ("overlap-or-outside", s!"outputs cover {fmtQ total}, inside area is {fmtQ want}: overlap or excess")
+        let tolArea := 1/1000 + tolB + tolC
+        if areas.any (· < -(1/2000) - tolB - tolC) then some ("winding-flipped", "an output triangle has the opposite orientation of its input")
+        else if total < want - tolArea then some ("inside-part-lost", s!"outputs cover {fmtQ total} of the inside area {fmtQ want} (barycentric units)")
+        else if total > want + tolArea then some ("overlap-or-outside", s!"outputs cover {fmtQ total}, inside area is {fmtQ want}: overlap or excess")
         else none
 
 def handle (case impl : List String) : Verdict :=
